@@ -1106,9 +1106,11 @@ class CreateOverlappingPartitions(Expr):
                 # We don't want to look at the divisions, so take twice the step and
                 # validate later.
                 after = 2 * self.after
+                last = self.frame.npartitions - 1
                 for i in range(1, self.frame.npartitions):
                     dsk[(name_append, i)] = (  # type: ignore[assignment]
-                        _head_timedelta,
+                        # only the last partition may be empty: nothing follows it
+                        _head_timedelta if i == last else _head_timedelta_nonempty,
                         (self.frame._name, i - 1),
                         (self.frame._name, i),
                         after,
@@ -1143,12 +1145,25 @@ def _overlap_chunk(df, func, before, after, *args, **kwargs):
     return overlap_chunk(func, before, after, df, *args, **kwargs)
 
 
+_PARTITION_TOO_SMALL = (
+    "Partition size is less than overlapping "
+    "window size. Try using ``df.repartition`` "
+    "to increase the partition size."
+)
+
+
+def _head_timedelta_nonempty(current, next_, after):
+    # ``_combined_parts`` validates a time-based look-ahead on the rows of the
+    # next partition alone. An empty next partition has no row to validate with,
+    # while the rows inside the window sit in a partition further on and would
+    # be left out silently: refuse, as for a too short integer overlap.
+    if len(next_) == 0 and len(current) > 0:
+        raise NotImplementedError(_PARTITION_TOO_SMALL)
+    return _head_timedelta(current, next_, after)
+
+
 def _combined_parts(prev_part, current_part, next_part, before, after):
-    msg = (
-        "Partition size is less than overlapping "
-        "window size. Try using ``df.repartition`` "
-        "to increase the partition size."
-    )
+    msg = _PARTITION_TOO_SMALL
 
     if prev_part is not None:
         if isinstance(before, numbers.Integral):
